@@ -38,7 +38,7 @@ type Case struct {
 func (c Case) Key() string { return c.Op + "/" + c.Target + "/" + c.Kind }
 
 // Select says which operations and which monitor groups a property is concerned with.
-// Monitor groups: image, chain, checksum, export, locks, restart, journal, backup, effect; for the replica-side
+// Monitor groups: mount (what an application reads through the kernel page cache = the file), image, chain, checksum, export, locks, restart, journal, backup, effect; for the replica-side
 // operations (cluster.go): replica-image, replica-checksum, replica-chain, replica-restart.
 type Select struct {
 	Ops       []string
@@ -247,6 +247,10 @@ func openWorld(c Case, l sim.Layout, variant string) *world {
 		w.pg.Ref = ref
 	}
 	w.input = flat(l.ImageOf([]sim.Content{{V: 31, Sz: 3, Wal: wal}, {V: 32}, {V: 33}}))
+	if variant == "bigger" {
+		w.input = flat(l.ImageOf([]sim.Content{{V: 31, Sz: 7, Wal: wal}, {V: 32}, {V: 33}, {V: 34}, {V: 35}, {V: 36}, {V: 37}}))
+	}
+	w.warmCache()
 	w.node.OS.Before = w.before
 	w.node.OS.Mangle = w.mangle
 	w.node.Cache.Fail = w.notify
@@ -277,6 +281,15 @@ func mask(b []byte) []byte {
 		copy(o[40:44], []byte{0, 0, 0, 0})
 	}
 	return o
+}
+
+func (w *world) warmCache() { w.node.WarmCache(dbName, w.l.PageSize) }
+
+func (w *world) mountView() []uint32 {
+	if w.db() == nil {
+		return nil
+	}
+	return w.node.StalePages(dbName, w.l.PageSize, w.l.LockPgno())
 }
 
 // ---- the three injection points ----
@@ -391,6 +404,8 @@ func variants(op string) []string {
 		return []string{"modify", "shrink", "grow"}
 	case "wal_commit":
 		return []string{"modify", "grow"}
+	case "import":
+		return []string{"", "bigger"} // the imported image is smaller / bigger than the database it replaces
 	}
 	return []string{""}
 }
@@ -632,6 +647,14 @@ func sweep(rep *core.Report, sel Select, c Case, l sim.Layout, variant string) {
 	}
 	refAfter := ref.factsNow()
 	ref.undo()
+	if sel.has("mount") && c.Op != "drop" && c.Op != "open" && c.Op != "backup_sync" && c.Kind == "error" {
+		rep.Eval(1)
+		if stale := ref.mountView(); len(stale) > 0 {
+			violate(rep, sel, "mount", "application-reads-stale-pages-through-the-mount", "application-reads-stale-pages-through-the-mount/"+c.Op+"/"+c.Target+"/"+variant,
+				map[string]any{"stale_pages": stale, "what": "after the operation (no fault) an application that had the database in its page cache reads pages through the mount that differ from the database file: LiteFS changed them without telling the kernel (or told it before the bytes were in place)"},
+				c, l, variant, -1, "")
+		}
+	}
 	ref.close()
 	key := fmt.Sprintf("%s/%s/%s/%d", c.Key(), variant, l.Name, l.PageSize)
 	if os.Getenv("FAULTS_LIST") != "" {
@@ -892,6 +915,12 @@ func one(rep *core.Report, sel Select, c Case, l sim.Layout, variant string, k i
 	if sel.has("checksum") || sel.has("image") || sel.has("effect") || sel.has("chain") {
 		if w.nextCommit(v, lockPg, false) {
 			chk("after-the-next-commit")
+		}
+	}
+	if sel.has("mount") && len(w.node.Exits()) == 0 {
+		rep.Eval(1)
+		if stale := w.mountView(); len(stale) > 0 {
+			v("mount", "application-reads-stale-pages-through-the-mount", "after the failed operation and what followed, an application that had the database in its page cache reads pages through the mount that differ from the database file", map[string]any{"stale_pages": stale})
 		}
 	}
 	if sel.has("restart") && len(w.node.Exits()) == 0 {
